@@ -5,7 +5,7 @@
 From Verif Require Export RawPkhModel.
 Local Open Scope N_scope.
 
-Inductive rctx := CSegwit | CLegacy.
+Inductive rctx := CSegwit | CLegacy | CTap.
 Inductive xwit := XStack (l : list (ph * N)) | XUnavailable | XImpossible | XPanic.
 
 Record run := mkRun {
@@ -38,9 +38,9 @@ Section WithTables.
 
   Definition the_ke : keyenv := mkKeyEnv kbytes khash (fun ks => ks).
   Definition the_se (c : rctx) (r : run) : senv :=
-    mkSenv false
-           (fun k => match c with CSegwit => 34 | CLegacy => blen (kbytes k) + 1 end)
-           (fun k => if bit (r_sig r) k then Some 73 else None)
+    mkSenv (match c with CTap => true | _ => false end)
+           (fun k => match c with CSegwit => 34 | CLegacy => blen (kbytes k) + 1 | CTap => 33 end)
+           (fun k => if bit (r_sig r) k then Some (match c with CTap => 64 | _ => 73 end) else None)
            (fun kd h => match kd with HSha256 => r_pre r && bytes_eqb h (snd pre) | _ => false end)
            (fun _ => r_after r) (fun _ => r_older r).
   Definition the_re (r : run) : rawenv := mkRawEnv (find_hash (r_rpk r)) (find_hash (r_rsig r)).
@@ -49,12 +49,13 @@ Section WithTables.
 
   (* the transaction of the oracle: lock fields that make exactly the locks the satisfier was told are met pass *)
   Definition the_env (c : rctx) (r : run) : env :=
-    mkEnv (match c with CSegwit => SvWitnessV0 | CLegacy => SvBase end)
+    mkEnv (match c with CSegwit => SvWitnessV0 | CLegacy => SvBase | CTap => SvTapscript end)
           (if r_after r then 100 else 0) (if r_older r then 5 else 0) 2
           (fun kb sg => match find_key kb, find_sig sg with
                         | Some i, Some j => existsb (fun p => N.eqb (fst p) i && N.eqb (snd p) j) valid
                         | _, _ => false end)
           (fun kb => match c, kb with
+                     | CTap, _ => N.eqb (blen kb) 32
                      | _, pfx :: _ => (N.eqb (blen kb) 33 && (N.eqb pfx 2 || N.eqb pfx 3))
                                       || (match c with CLegacy => N.eqb (blen kb) 65 && N.eqb pfx 4 | _ => false end)
                      | _, [] => false end)
